@@ -38,6 +38,7 @@ def _is_call(e, *names):
 def _atoms_say(atoms, call_name, variant=None, truth=None):
     """does the path's decision list say the result of `call_name` is Some/true?"""
     for (_, a) in atoms:
+        a = untry(a)
         if a[0] == 'is' and a[1][0] == 'call' and a[1][1] == call_name:
             return a[2] == variant
         if a[0] == 'bool' and a[1][0] == 'call' and a[1][1] == call_name:
@@ -108,9 +109,19 @@ def r1_len_accounting(ctx):
                   f.where_path(path), 'path blocks %s' % (list(path),))
     ctx.floor('returning paths of CQueue::cancel', n, 4)
     # --- the list's own counter
-    llen = ctx.anchor(L + '::len')
+    # role: the list's element counter = the field DualLinkedList::len returns (or, if that getter was inlined away, the integer
+    # field of the list that DualLinkedList::add increments)
+    llen = P.fns.get(L + '::len')
     lf = returned_field(llen) if llen else None
-    if ctx.check(lf is not None, 'list-len-getter', 'DualLinkedList::len returns a stored counter field',
+    if lf is None:
+        fadd = P.fns.get(L + '::add')
+        incs = set()
+        for b, i, st in ([(b, i, st) for b in sorted(fadd.reachable()) for i, st in enumerate(fadd.stmts(b)) if st['k'] == 'assign'] if fadd else []):
+            c = classify_write(fadd, b, i, st)
+            if c and c[0] == 'inc' and (c[2] or '').endswith('DualLinkedList'):
+                incs.add(c[1])
+        lf = incs.pop() if len(incs) == 1 else None
+    if ctx.check(lf is not None, 'list-len-getter', 'DualLinkedList keeps a stored element counter (returned by len / incremented by add)',
                  llen.where() if llen else None, 'field: %s' % lf):
         f = ctx.anchor(L + '::add')
         for path, outcome, decs in fn_paths(ctx, f):
@@ -302,7 +313,8 @@ def r3_container_agreement(ctx):
     for f, w in writers:
         for (b, i, st) in w:
             t = peel(f.expr_rvalue(st['r'], b, i))
-            fine = (t[0] == 'call' and t[1] == L + '::front_time') or f.key == Q + '::new'
+            alts = [peel(x) for x in t[1]] if t[0] == 'phi' else [t]
+            fine = all(x[0] == 'call' and x[1] == L + '::front_time' for x in alts) or f.key == Q + '::new'
             ctx.check(fine, 'bound-writer:%s' % f.key, 'the lower bound %s is only written with a stored node\'s time (or in the constructor)' % bf,
                       f.where(b), show(t))
 
@@ -375,8 +387,11 @@ def r5_fetch_skeleton(ctx):
         detail = None
         if wr:
             iw = wr[-1]
-            src_recv = canon(peel(peel(effs[iw][4])[2][0]))
-            between = effs[iw:ip]
+            src_call = peel(effs[iw][4])
+            src_recv = canon(peel(src_call[2][0]))
+            # from the evaluation of front_time (not merely the store of its result) up to the pop
+            ic = [i for i, e in enumerate(effs[:ip]) if e[0] == 'c' and len(src_call) > 3 and e[1].b == src_call[3] and _is_call(e, L + '::front_time')]
+            between = effs[(ic[-1] if ic else iw):ip]
             # no write to any field used in the index expression between the bound write and the pop
             idx_fields = {x[2] for x in walk(pop_recv) if x[0] == 'field'}
             dirty = [e for e in between if e[0] == 'w' and e[2] in idx_fields]
@@ -451,14 +466,19 @@ def r7_timestamp_roundtrip(ctx):
         s = fl.calls_to(N + '::new')
         ok = len(s) == 1 and peel(fl.expr_operand(s[0].args[1], s[0].b, 'T')) == ('arg', 3, 'time')
         ctx.check(ok, 'list-add-passes-time', 'DualLinkedList::add passes its time parameter to the node unchanged', fl.where())
-    fi = ctx.anchor(N + '::into_inner')
-    if fi:
+    # the (event, time) pair handed out for a node: built in EventNode::into_inner, or in its caller(s) if that helper was inlined
+    scope = P.scope_of(N + '::into_inner')
+    if ctx.floor('functions unpacking a list node', len(scope), 1):
         ok = False
-        for b, t in ret_trees(fi):
-            if t[0] == 'agg' and t[1] == 'tuple' and len(t[2]) == 2:
-                v = peel(t[2][1])
-                ok = v[0] == 'field' and v[2] == 'time' and not any(x[0] in ('cast', 'bin') for x in walk(t[2][1]))
-        ctx.check(ok, 'node-time-returned', 'the node\'s stored time is returned with the event, unconverted', fi.where())
+        for fi in scope:
+            ctx.touch(fi)
+            for b, t0 in ret_trees(fi):
+                for t in walk(t0):
+                    if t[0] == 'agg' and t[1] == 'tuple' and len(t[2]) == 2:
+                        v = peel(t[2][1])
+                        if v[0] == 'field' and v[2] == 'time' and not any(x[0] in ('cast', 'bin') for x in walk(t[2][1])):
+                            ok = True
+        ctx.check(ok, 'node-time-returned', 'the node\'s stored time is returned with the event, unconverted', scope[0].where())
     # bucket path of CQueue::add hands `time` on unchanged; zero path stores it in the tuple
     for s in fa.calls_to(L + '::add'):
         ctx.check(peel(fa.expr_operand(s.args[2], s.b, 'T')) == ('arg', 2, 'time'), 'queue-add-passes-time', 'CQueue::add files the event under the time it was given', s.where())
